@@ -1268,6 +1268,10 @@ class SetElement(ContentElement):
       model_element.value
     )
 
+    if len(set_element.attrib) == 0:
+      # the value has no TTML representation, e.g. a text decoration that specifies nothing
+      return None
+
     if model_element.begin is not None:
       imsc_attr.BeginAttribute.set(ctx.temporal_context, set_element, model_element.begin)
 
